@@ -1,5 +1,6 @@
 #!/bin/sh
-# usage: harness/batch_seeds.sh <dir>...   verify each seed dir on /repo HEAD, then run its property's quick check
+# usage: harness/batch_seeds.sh <dir>...   verify each seed dir on /repo HEAD (scratch worktree), then run its property's
+# quick check against a patched scratch worktree (VERIF_REPO); /repo itself is never modified.
 for d in "$@"; do
   n=$(basename $d); prop=$(echo $n | cut -c1-3)
   v=$(harness/verify_seed.sh $d 2>&1 | tail -1)
@@ -7,9 +8,12 @@ for d in "$@"; do
     *"demo_unpatched_rc=0 tests_patched_rc=0 demo_patched_rc=1"*) ;;
     *) echo "$n INVALID: $v"; continue;;
   esac
-  git -C /repo apply $d/patch.diff || { echo "$n: apply failed"; continue; }
-  ./check $prop --tier quick > /tmp/batch_$n.out 2>&1; rc=$?
-  git -C /repo checkout -- .
+  W=/tmp/batchwt_$$
+  git -C /repo worktree add -q --detach $W HEAD || continue
+  ( cd $W && git apply $d/patch.diff ) || { echo "$n: apply failed"; git -C /repo worktree remove --force $W; continue; }
+  VERIF_REPO=$W ./check $prop --tier quick > /tmp/batch_$n.out 2>&1; rc=$?
+  git -C /repo worktree remove --force $W
   nv=$(grep -c "^VIOLATION property=$prop" /tmp/batch_$n.out)
   echo "$n rc=$rc viol=$nv $(grep '^VIOLATION' /tmp/batch_$n.out | head -1 | cut -c1-200) $(grep '^MACHINERY' /tmp/batch_$n.out | head -1 | cut -c1-150)"
+  rm -f /tmp/batch_$n.out
 done
